@@ -71,6 +71,7 @@ type plSys struct {
 	r      *vrt.Run
 	s      *miniredis.Miniredis
 	l      *PeriodLimit
+	mk     func() *PeriodLimit
 	period int
 	quota  int
 	align  bool
@@ -116,6 +117,11 @@ func plName(c int) string {
 func (s *plSys) apply(op string) {
 	if strings.HasPrefix(op, "take:") {
 		s.take(op[5:])
+		return
+	}
+	if op == "newlimiter" {
+		// another process (or a restart): a fresh limiter object over the same Redis state
+		s.l = s.mk()
 		return
 	}
 	var sec int
@@ -175,7 +181,7 @@ func TestVerifPeriodLimit(t *testing.T) {
 		if vrt.Thorough() {
 			depth += 2
 		}
-		ops := []string{"take:k1", "take:k2", "t1", fmt.Sprintf("t%d", c.period)}
+		ops := []string{"take:k1", "take:k2", "newlimiter", "t1", fmt.Sprintf("t%d", c.period)}
 		if c.period > 2 {
 			ops = append(ops, fmt.Sprintf("t%d", c.period-1))
 		}
@@ -188,12 +194,14 @@ func TestVerifPeriodLimit(t *testing.T) {
 			}
 			defer func() { vrt.Base = saved }()
 			s := &plSys{r: r, s: freshServer(r), period: c.period, quota: c.quota, align: c.align, keys: map[string]*plKey{}}
-			store := redis.New(s.s.Addr())
-			if c.align {
-				s.l = NewPeriodLimit(c.period, c.quota, store, "pl:", Align())
-			} else {
-				s.l = NewPeriodLimit(c.period, c.quota, store, "pl:")
+			s.mk = func() *PeriodLimit {
+				store := redis.New(s.s.Addr())
+				if c.align {
+					return NewPeriodLimit(c.period, c.quota, store, "pl:", Align())
+				}
+				return NewPeriodLimit(c.period, c.quota, store, "pl:")
 			}
+			s.l = s.mk()
 			// start one second into a period so that aligned windows are shorter than the period
 			vrt.Advance(time.Second)
 			s.s.FastForward(time.Second)
@@ -339,6 +347,13 @@ func (s *tlSys) apply(op string) bool {
 		}
 		s.s.SetError("")
 		s.up = true
+	case op == "newlimiter":
+		// another process (or a restart): a fresh limiter object over the same Redis state
+		s.l = NewTokenLimiter(s.rate, s.burst, redis.New(s.s.Addr()), "tl")
+		s.rescueMode, s.rescueB, s.evalsInRescue = false, bucket{}, false
+		if !s.up {
+			s.everRescue = true
+		}
 	case op == "monitor":
 		// one monitor period passes (100 ms): the background ping may find Redis again
 		if !s.rescueMode {
@@ -402,7 +417,7 @@ func TestVerifTokenLimit(t *testing.T) {
 			depth = 8
 		}
 		ttl := c.burst * 2 / c.rate
-		ops := []string{"allow:1", "allow:2", fmt.Sprintf("allow:%d", c.burst), fmt.Sprintf("allow:%d", c.burst+1), "t0", "t1", "t2", fmt.Sprintf("t%d", ttl), fmt.Sprintf("t%d", ttl+1), "down", "up", "monitor"}
+		ops := []string{"allow:1", "allow:2", fmt.Sprintf("allow:%d", c.burst), fmt.Sprintf("allow:%d", c.burst+1), "t0", "t1", "t2", fmt.Sprintf("t%d", ttl), fmt.Sprintf("t%d", ttl+1), "down", "up", "monitor", "newlimiter"}
 		vrt.BFS(vrt.Options{Name: fmt.Sprintf("tokenlimit/rate=%d/burst=%d/callerclock=%+v", c.rate, c.burst, c.skew), Budget: vrt.FairBudget(len(mine) - i)}, depth, ops, func(r *vrt.Run, hist []string) vrt.Step {
 			// the per-address breaker must never shed calls here (C01/C12 cover it)
 			vrt.SetRandHook(func() (int64, bool) { return vrt.FloatDraw(1 - 1.0/(1<<53)), true })
